@@ -58,6 +58,11 @@ CHECKS["C09"] = ("model_checking",
  "Every expression tree with up to three binary operators over all 24 operators, and every tree up to 5 nodes (thorough 6) over unary sign, all suffix spellings, as/def/label, try/catch, if, reduce, array/object/call/interpolation contexts, is rendered to text with exactly the parentheses the reference grammar (jq's precedence and associativity table) requires, and gojq.Parse must return exactly that tree; every ordered pair and triple of operators is covered in both groupings. Bindings as right operands of each operator pair are checked against jq's `Term as Patterns | Pipe` rule. Every generated text, every text of a surface grammar (~100 term/suffix/string/format/pattern/keyword-key forms, <= 3 nodes, thorough 4), module headers and every corpus query must satisfy Parse(String(q)) deep-equal q with String a fixpoint, and yield the identical AST under every re-spacing (7 gap kinds incl. comments and CRLF, uniformly and at each single gap); chains of non-associative operators must be rejected.",
  "Trusted: the transcription of jq's precedence table in the renderer and the reference tokenizer. Two known findings (source of `as` parsed as an expression; `. .[0]` round trip) are attributed by exact tree comparison. An un-regenerated edit of parser.go.y is invisible.",
  "DESIGN.md §4 C09")
+CHECKS["C03"] = ("exploration",
+ "exhaustive argument-tuple enumeration per builtin against reference natives, a reference interpreter of builtin.jq, and representation re-lifting",
+ "For every builtin name/arity reported by `builtins` (arity <= 2) and the @format natives, all (input, arg1, arg2) tuples over the builtin universe (every type, empty/singleton/nested containers, boundary and huge numbers in every Go representation, NaN/inf, multi-byte and invalid UTF-8 strings, path- and entry-shaped values) are executed; each tuple is checked (O1) for totality and catchability (the error is an error value that try catches; the uncaught run fails iff the caught one does), (O2) against a reference native written from the manual where one exists (45 natives, + - * / % on all type pairs, 25 math functions against Go's math), and (O4) for representation independence: every uniform re-lifting of the tuple's numbers (int / *big.Int / integer json.Number; float64 / fractional json.Number below 2^53; all saturating forms beyond the double range) must give the same result. (O3) every jq-defined builtin x 17 filter arguments x 20 inputs is compared with its published definition in builtin.jq interpreted by the reference interpreter, and the precompiled table in builtin.go is compared with Parse(builtin.jq) definition by definition.",
+ "Reference natives decline (undefined) wherever the manual is silent or gojq pins a deliberate deviation in cli/test.yaml; natives without a reference (bessel/gamma family, dates) get O1/O4 only.",
+ "DESIGN.md §4 C03")
 NOT_YET = "check not built yet (work in progress in this session); see DESIGN.md for the planned exploration"
 
 def commits():
